@@ -16,6 +16,9 @@ def job(name, props, unwind=26, tier="quick", timeout=900, entries=8):
 job("enc_tw", "C03 C06")
 job("enc_tr1", "C03 C06")
 job("enc_tn", "C03 C06", tier="thorough")
+job("enc_topt", "C03 C06")   # entry whose value type is an Optional
+job("dec_topt_ped", "C08 C04 C11", entries=5)
+job("rt_topt_ped_ped", "C01", entries=4, timeout=1800)
 job("enc_tbig", "C03 C06 C07")   # entry ids in the U16 and U64 classes
 job("cap_tbig_bw", "C06 C07")
 job("rt_tbig_ped_ped", "C01 C07", entries=4, tier="thorough", timeout=3000)
